@@ -60,7 +60,10 @@ def unprefixed (u : TU K) (x : K) : K :=
   | none => x
   | some p => x * p.val
 
-/-- absolute temperature in kelvin of the reading `x` taken as a position on the scale `u` -/
+/-- absolute temperature in kelvin of the reading `x` taken as a position on the scale `u`.
+    For K, R, delta_degC, delta_degF (`zero = 0`) the scale is read as an absolute one with its zero at
+    0 K — this is how the library converts (`(20 degC).to('delta_degC')` is 293.15), and it is the
+    sense of "exact affine maps between those scales" in `temp_conversions_affine`. -/
 def absK (u : TU K) (x : K) : K := slope u.base * (unprefixed u x - zero u.base)
 
 /-- size in kelvin of the reading `x` taken as a temperature difference in the unit `u` -/
